@@ -45,6 +45,7 @@ type SpecCtx struct {
 	g      string // guard under which pure calls are executed
 	block  *ssa.BasicBlock
 	inTrig bool
+	globalClause bool
 }
 
 func (c *SpecCtx) with(vars map[string]SV) *SpecCtx {
@@ -266,6 +267,9 @@ func (c *SpecCtx) ident(name string) SV {
 			case *types.Var:
 				sp := c.f.e.prog.Package(c.pkg)
 				if g, ok := sp.Members[name].(*ssa.Global); ok {
+					if c.globalClause && globalAssigned(c.f.e.prog, g) {
+						fail("global clause mentions %s, which is assigned outside package initialisation", name)
+					}
 					ref := c.f.e.globalRef(g)
 					return c.deref(SV{T: ref, Sort: "Int", Ty: g.Type()})
 				}
@@ -859,7 +863,14 @@ func (c *SpecCtx) eval1LV(n *Node) *LVal {
 }
 
 func (e *Enc) declErrIs() {
-	e.declRaw("errors_is", "(declare-fun errors_is (Iface Iface) Bool)\n(assert (forall ((a Iface)) (! (=> (not (= (i_tag a) 0)) (errors_is a a)) :pattern ((errors_is a a)))))\n(assert (forall ((b Iface)) (! (=> (not (= (i_tag b) 0)) (not (errors_is nil_iface b))) :pattern ((errors_is nil_iface b)))))")
+	if e.declared["errors_is"] {
+		return
+	}
+	tag := e.tagOfName("*errors.errorString")
+	e.declRaw("errors_is", fmt.Sprintf(`(declare-fun errors_is (Iface Iface) Bool)
+(assert (forall ((a Iface)) (! (=> (not (= (i_tag a) 0)) (errors_is a a)) :pattern ((errors_is a a)) :qid erris_refl)))
+(assert (forall ((b Iface)) (! (=> (not (= (i_tag b) 0)) (not (errors_is nil_iface b))) :pattern ((errors_is nil_iface b)) :qid erris_nil)))
+(assert (forall ((a Iface) (b Iface)) (! (=> (= (i_tag a) %d) (= (errors_is a b) (= a b))) :pattern ((errors_is a b)) :qid erris_errorString)))`, tag))
 }
 
 // pureCall executes a Go function of the program symbolically (no side effects allowed).
@@ -967,4 +978,51 @@ func seqSuffix(es string) string {
 		return "S"
 	}
 	return "$" + sanitize(es)
+}
+
+var assignedGlobals map[*ssa.Global]bool
+
+// globalAssigned: some function other than a package initialiser stores to the global.
+func globalAssigned(prog *ssa.Program, g *ssa.Global) bool {
+	if assignedGlobals == nil {
+		assignedGlobals = map[*ssa.Global]bool{}
+		for _, p := range prog.AllPackages() {
+			if !strings.HasPrefix(p.Pkg.Path(), modulePath) {
+				continue
+			}
+			var visit func(fn *ssa.Function)
+			visit = func(fn *ssa.Function) {
+				if fn.Name() != "init" {
+					for _, b := range fn.Blocks {
+						for _, in := range b.Instrs {
+							if st, ok := in.(*ssa.Store); ok {
+								if gg, ok := st.Addr.(*ssa.Global); ok {
+									assignedGlobals[gg] = true
+								}
+							}
+						}
+					}
+				}
+				for _, a := range fn.AnonFuncs {
+					visit(a)
+				}
+			}
+			for _, m := range p.Members {
+				switch m := m.(type) {
+				case *ssa.Function:
+					visit(m)
+				case *ssa.Type:
+					for _, t := range []types.Type{m.Type(), types.NewPointer(m.Type())} {
+						ms := prog.MethodSets.MethodSet(t)
+						for i := 0; i < ms.Len(); i++ {
+							if fn := prog.MethodValue(ms.At(i)); fn != nil {
+								visit(fn)
+							}
+						}
+					}
+				}
+			}
+		}
+	}
+	return assignedGlobals[g]
 }
